@@ -219,6 +219,8 @@ impl PtraceDumper {
         {
             soft_errors.push(InitError::EnumerateThreadsFailed(Box::new(e)));
         }
+        #[cfg(feature = "verif-hooks")]
+        crate::verif_hooks::sync(crate::verif_hooks::Point::ThreadsEnumerated);
 
         // Same with mappings -- Some information is still better than no information!
         if let Err(e) = self.enumerate_mappings() {
@@ -246,8 +248,12 @@ impl PtraceDumper {
         use DumperError::PtraceAttachError as AttachErr;
 
         let pid = nix::unistd::Pid::from_raw(child);
+        #[cfg(feature = "verif-hooks")]
+        crate::verif_hooks::sync(crate::verif_hooks::Point::BeforeAttach(child));
         // This may fail if the thread has just died or debugged.
         ptrace::attach(pid).map_err(|e| AttachErr(child, e))?;
+        #[cfg(feature = "verif-hooks")]
+        crate::verif_hooks::sync(crate::verif_hooks::Point::Attached(child));
         loop {
             match wait::waitpid(pid, Some(wait::WaitPidFlag::__WALL)) {
                 Ok(status) => {
@@ -267,6 +273,11 @@ impl PtraceDumper {
 
                     // Signals other than SIGSTOP that are received need to be reinjected,
                     // or they will otherwise get lost.
+                    #[cfg(feature = "verif-hooks")]
+                    crate::verif_hooks::sync(crate::verif_hooks::Point::Reinjected(
+                        child,
+                        status as i32,
+                    ));
                     if let Err(err) = ptrace::cont(pid, status) {
                         return Err(DumperError::WaitPidError(child, err));
                     }
@@ -306,6 +317,8 @@ impl PtraceDumper {
                 return Err(DumperError::DetachSkippedThread(child));
             }
         }
+        #[cfg(feature = "verif-hooks")]
+        crate::verif_hooks::sync(crate::verif_hooks::Point::AfterAttach(child, true));
         Ok(())
     }
 
@@ -322,19 +335,27 @@ impl PtraceDumper {
         self.threads.retain(|x| match Self::suspend_thread(x.tid) {
             Ok(()) => true,
             Err(e) => {
+                #[cfg(feature = "verif-hooks")]
+                crate::verif_hooks::sync(crate::verif_hooks::Point::AfterAttach(x.tid, false));
                 soft_errors.push(e);
                 false
             }
         });
 
         self.threads_suspended = true;
+        #[cfg(feature = "verif-hooks")]
+        crate::verif_hooks::sync(crate::verif_hooks::Point::ThreadsSuspended);
 
         failspot::failspot!(<crate::FailSpotName>::SuspendThreads soft_errors.push(DumperError::PtraceAttachError(1234, nix::Error::EPERM)))
     }
 
     pub fn resume_threads(&mut self, mut soft_errors: impl WriteErrorList<DumperError>) {
         if self.threads_suspended {
+            #[cfg(feature = "verif-hooks")]
+            crate::verif_hooks::sync(crate::verif_hooks::Point::BeforeResume);
             for thread in &self.threads {
+                #[cfg(feature = "verif-hooks")]
+                crate::verif_hooks::sync(crate::verif_hooks::Point::BeforeDetach(thread.tid));
                 match Self::resume_thread(thread.tid) {
                     Ok(()) => (),
                     Err(e) => {
@@ -342,6 +363,8 @@ impl PtraceDumper {
                     }
                 }
             }
+            #[cfg(feature = "verif-hooks")]
+            crate::verif_hooks::sync(crate::verif_hooks::Point::AfterResume);
         }
         self.threads_suspended = false;
     }
@@ -418,6 +441,15 @@ impl PtraceDumper {
             } else {
                 std::fs::read_to_string(format!("/proc/{}/task/{}/comm", pid, tid))
             });
+
+            #[cfg(feature = "verif-hooks")]
+            let name_result = if crate::verif_hooks::thread_name_fault(tid) {
+                Err(std::io::Error::other(
+                    "verif-hooks requested thread name failure",
+                ))
+            } else {
+                name_result
+            };
 
             let name = match name_result {
                 Ok(name) => Some(name.trim_end().to_string()),
